@@ -147,6 +147,35 @@ theorem accept_complete (f : RomFile) (k : Nat) (ho : f.opens = true) (hl : head
   simp only [ho, hc, e1, e2, e3, seekPos]
   rfl
 
+
+/-! ### the title printed at load time
+
+A file's eleven title bytes are arbitrary.  `get_title` (since /repo 7171639: `from_utf8_lossy`, trailing NULs trimmed)
+is a total function of them — no title can make the load fail — and `title_bytes` / `title_ascii` say what it yields. -/
+
+/-- the title bytes of a header -/
+def titleField (h : Header) : List Nat := (List.range 11).map fun i => h.byte (0x34 + i)
+
+/-- an ASCII title is shown as it is in the file, trailing NULs dropped -/
+theorem title_ascii (h : Header) (ha : ∀ i, i < 11 → h.byte (0x34 + i) < 0x80) : titleText h = trimNul (titleField h) := by
+  unfold titleText
+  rw [utf8Lossy_ascii]
+  · rfl
+  · intro b hb
+    obtain ⟨i, hi, e⟩ := List.mem_map.mp hb
+    rw [← e]; exact ha i (List.mem_range.mp hi)
+
+/-- whatever the title bytes are, every byte of the text `get_title` returns is one of the eleven title bytes or a byte
+of U+FFFD — nothing else of the header or of memory gets into the Loading line -/
+theorem title_bytes (h : Header) : ∀ x ∈ titleText h, x ∈ titleField h ∨ x ∈ [0xef, 0xbf, 0xbd] := by
+  intro x hx
+  exact lossyAux_bytes _ _ x (mem_trimNul hx)
+
+/-- non-vacuity: a lone continuation byte, a cut-off three-byte sequence and a UTF-16 surrogate become U+FFFD; "É" stays -/
+example : utf8Lossy [0x80] = [0xef, 0xbf, 0xbd] ∧ utf8Lossy [0x41, 0xc3, 0x89, 0x42] = [0x41, 0xc3, 0x89, 0x42] ∧
+    utf8Lossy [0xe2, 0x82] = [0xef, 0xbf, 0xbd] ∧
+    utf8Lossy [0xed, 0xa0, 0x80] = [0xef, 0xbf, 0xbd, 0xef, 0xbf, 0xbd, 0xef, 0xbf, 0xbd] := by decide
+
 /-! ### non-vacuity: concrete files -/
 
 /-- 64 KiB MBC1 image: type 0x01, ROM code 0x01, all other header bytes 0, checksum 0xE5 -/
